@@ -442,12 +442,19 @@ def extract_case(seed):
     kind = rng.choice(["sphere", "box"])
     import warnings
 
+    def length(v, u):
+        """the size as the user writes it: an integer number of <u> when it is one (integer dtype), else a float"""
+        raw = v / scale[u]
+        if raw == int(raw) and rng.random() < 0.6:
+            return osy.Array(values=np.int64(int(raw)), unit=u)
+        return osy.Array(values=raw, unit=u)
+
     with warnings.catch_warnings():
         warnings.simplefilter("ignore")
         if kind == "sphere":
-            sub = extract_sphere(ds, osy.Array(values=size / scale[ur], unit=ur), origin)
+            sub = extract_sphere(ds, length(size, ur), origin)
         else:
-            sz = [osy.Array(values=2 * size / scale[ur], unit=ur) for _ in range(3)]
+            sz = [length(2 * size, ur) for _ in range(3)]
             sub = extract_box(ds, sz[0], sz[1], sz[2], origin)
     # oracle
     for name in ds.keys():
